@@ -777,3 +777,17 @@ package iscp
 //@   nopanic
 //@   modifies nothing
 //@   ensures result != nil && fresh(result) && result.Current == currentValue
+
+// ---------------------------------------------------------------- C01: Close waits for every chunk
+// The wait that precedes the close request reports success only after it has flushed and then
+// seen the sent storage hold no unacknowledged chunk of this stream (acks are per chunk: there is
+// no shortcut through "the highest acknowledged number is the last issued one").
+//@ func (*Upstream).waitToSendAllDataPointsAndReceiveAllAck
+//@   props C01
+//@   ghostvar flushed bool = false
+//@   ghostvar sawEmpty bool = false
+//@   after call Upstream).Flush: flushed = (res0 == nil)
+//@   after call sentStorage).List: sawEmpty = (res1 == nil && len(res0) == 0)
+//@   assert call sentStorage).List: flushed && arg1 == u.ID
+//@   ensures imp(result == nil, flushed && sawEmpty)
+//@   loop 1 invariant flushed
